@@ -338,6 +338,8 @@ func c17Setup(c *Cli, state string) map[string]string {
 		// field values at the edges of the number type
 		c.Do("SET", "kn", "a", "FIELD", "nan", "NaN", "FIELD", "pinf", "+Inf", "FIELD", "ninf", "-Inf", "FIELD", "big", "1e308", "FIELD", "tiny", "1e-320", "FIELD", "negz", "-0", "FIELD", "int", "9007199254740993", "POINT", "1", "2")
 		c.Do("SET", "kn", "b", "FIELD", "nan", "1", "POINT", "1", "3")
+		// spellings Go's float parser accepts and JSON does not
+		c.Do("SET", "kn", "c", "FIELD", "plus", "+7", "FIELD", "nolead", ".5", "FIELD", "trail", "5.", "FIELD", "negzero", "-012", "FIELD", "exp", "1.e3", "FIELD", "hex", "0x1p-2", "FIELD", "under", "1_0", "FIELD", "upinf", "Infinity", "POINT", "1", "4")
 		// objects whose field names differ, so that the last object of a LIMIT page brings a new name
 		c.Do("SET", "kf", "a", "FIELD", "f1", "1", "POINT", "1", "1")
 		c.Do("SET", "kf", "b", "FIELD", "f2", "2", "POINT", "1", "2")
@@ -360,7 +362,7 @@ func c17Extra(state string) [][]string {
 		{"BOGUS\"CMD", "x"}, {"SET", k, "x", "POINT", "bad\"num", "1"}, {"DELCHAN", `ch"q`},
 		{"SCAN", "kc\x01\x1b"}, {"SCAN", "kc\x01\x1b", "IDS"}, {"GET", "kc\x01\x1b", "i\x7f\x00d", "WITHFIELDS"}, {"GET", "kc\x01\x1b", "bad\xffutf"}, {"KEYS", "kc*"}, {"GET", "kc\x01\x1b", "no\x1bsuch"}, {"GET", "no\x7fkey", "x"}, {"ECHO\x01", "x"}, {"TYPE", "kc\x01\x1b"}, {"SEARCH", "kc\x01\x1b"},
 		{"GET", "kbig", "v"}, {"SCAN", "kbig"},
-		{"GET", "kn", "a", "WITHFIELDS"}, {"SCAN", "kn"}, {"SCAN", "kn", "POINTS"}, {"FGET", "kn", "a", "nan"}, {"FGET", "kn", "a", "pinf"}, {"FGET", "kn", "a", "int"}, {"NEARBY", "kn", "POINT", "1", "2"}, {"SCAN", "kn", "WHERE", "nan", "0", "2"}, {"SCAN", "kn", "WHERE", "pinf", ">", "5"},
+		{"GET", "kn", "a", "WITHFIELDS"}, {"SCAN", "kn"}, {"SCAN", "kn", "POINTS"}, {"FGET", "kn", "a", "nan"}, {"FGET", "kn", "c", "plus"}, {"FGET", "kn", "c", "nolead"}, {"FGET", "kn", "c", "trail"}, {"FGET", "kn", "c", "exp"}, {"FGET", "kn", "c", "hex"}, {"GET", "kn", "c", "WITHFIELDS"}, {"SCAN", "kn", "WHERE", "plus", "7", "7"}, {"FGET", "kn", "a", "pinf"}, {"FGET", "kn", "a", "int"}, {"NEARBY", "kn", "POINT", "1", "2"}, {"SCAN", "kn", "WHERE", "nan", "0", "2"}, {"SCAN", "kn", "WHERE", "pinf", ">", "5"},
 		{"SCAN", "kf", "LIMIT", "1"}, {"SCAN", "kf", "LIMIT", "2"}, {"SCAN", "kf", "LIMIT", "3"}, {"SCAN", "kf", "CURSOR", "1", "LIMIT", "2"}, {"NEARBY", "kf", "LIMIT", "2", "POINT", "1", "1"}, {"NEARBY", "kf", "DISTANCE", "IDS", "POINT", "1", "1"}, {"NEARBY", "kf", "DISTANCE", "POINT", "1", "2"}, {"NEARBY", "kf", "DISTANCE", "LIMIT", "1", "IDS", "POINT", "1", "3"}, {"WITHIN", "kf", "LIMIT", "3", "BOUNDS", "0", "0", "5", "5"}, {"SCAN", "kf", "LIMIT", "2", "POINTS"},
 		{"SCAN", "k%d"}, {"SCAN", "k%d", "IDS"}, {"SEARCH", "k%d"}, {"GET", "k%d", "100%", "WITHFIELDS"}, {"GET", "k%d", "%x", "WITHFIELDS", "POINT"}, {"FGET", "k%d", "100%", "g%"}, {"NEARBY", "k%d", "POINT", "1", "2"},
 		{"GET", "k%d", "no%sid"}, {"GET", "no%dkey", "x"}, {"BOGUS%s"}, {"TYPE", "k%d"}, {"STATS", "k%d"}, {"SET", "k%d", "y", "POINT", "bad%d", "1"}}
